@@ -1111,6 +1111,8 @@ class KVEngine:
         if kv is None:
             return {"res": "skip"}
         a, fr, tag = self._scalar(op, "a", kv, cfg, ctx)
+        if tag != "bad" and abs(fr) > 2 ** 12 and any(isinstance(x, float) for x in list(kv)):
+            return {"res": "skip"}     # a huge translation of FLOAT knots merges neighbours by rounding: not a statement about the library
         pre = self.exact_list(kv)
         must = "any" if tag == "bad" else None
         via = op["via"]
@@ -1219,6 +1221,13 @@ class KVEngine:
         if len(post) != len(pre):
             ctx.fail("affine-image", label + "-length", "length changed %d -> %d" % (len(pre), len(post)))
             return
+        isf_any = any(isinstance(x, float) for x in raw)
+        if isf_any:
+            # in floating point two distinct knots may legitimately collapse when their exact images are closer than one ulp
+            imgs = [float(s * x + a) for x in M.kv_knots(pre)]
+            if len(set(imgs)) != len(imgs):
+                ctx.count("affine_float_precision_exhausted_unjudged")
+                return
         if M.wellformed(post) is None or M.wellformed(post) != M.wellformed(pre) or \
                 [m for _, m in M.kv_mults(post)] != [m for _, m in M.kv_mults(pre)]:
             ctx.fail("affine-image", label + "-multiplicities", "degree/multiplicity pattern changed: %s -> %s"
